@@ -16,6 +16,7 @@ structure RawAlg where
 def pRawAlg? (s : String) : Option RawAlg :=
   match s.splitOn "|" with
   | ["P", q] => (pEnd? q).map (fun q => { f := none, l := q, u := q })
+  | ["P", q, fl] => (pEnd? q).map (fun q => { f := none, l := q, u := q, flags := fl })
   | ["A", cs, l, u, sa, sb, fl] => do
       let cs ← pList? pInt? cs
       let l ← pEnd? l
